@@ -17,6 +17,7 @@ import (
 // World is what is shared between verification jobs (read-only after load).
 type World struct {
 	retried int // obligations decided only in the second pass (extended time-outs)
+	retriedIDs []string
 	repo   string
 	prog   *ssa.Program
 	pkgs   map[string]*ssa.Package // by package name (json, proto, ...)
@@ -124,8 +125,21 @@ func loadWorld(repo string, pkgPatterns []string) (*World, error) {
 		}
 	}
 	// index every function (incl. methods, closures) of every package by short name
+	// (short names can collide with the standard library, e.g. encoding/json:
+	// the packages loaded for verification win)
+	own := map[*ssa.Package]bool{}
+	for _, p := range w.pkgs {
+		own[p] = true
+	}
 	for fn := range ssautil.AllFunctions(prog) {
-		w.funcs[fnName(fn)] = fn
+		n := fnName(fn)
+		if prev, dup := w.funcs[n]; dup && own[prev.Pkg] && !own[fn.Pkg] {
+			continue
+		}
+		if prev, dup := w.funcs[n]; dup && own[prev.Pkg] == own[fn.Pkg] && prev.String() < fn.String() {
+			continue // deterministic choice among equals
+		}
+		w.funcs[n] = fn
 	}
 	return w, nil
 }
@@ -307,6 +321,9 @@ func (w *World) verifyFunc(name string, con *Contract) (jr *JobResult) {
 	e := w.newEngine()
 	jr.engine = e
 	e.noSafety = con.NoSafety
+	if con.NoEager {
+		e.eagerConstInst = false
+	}
 	f := e.newFrame(fn, con, true, 0)
 	e.top = f
 	tb := e.tb
